@@ -1,5 +1,5 @@
 (* Proofs about Model/Retention.v (property C22). *)
-From Coq Require Import List NArith Bool Lia.
+From Coq Require Import List NArith Bool Lia PeanoNat.
 From PV Require Import Model.Retention.
 Import ListNotations.
 Open Scope N_scope.
@@ -317,23 +317,23 @@ Section ListLemmas.
         rewrite (all_prune ok s _ _ H1 Hs), (IH _ _ H2 Hss). reflexivity.
   Qed.
 
-  (* which results still hold a source-retention field *)
-  Lemma all_has_source : forall ens l pt i,
-    Forall (fun x => forall q, wf_elem x = true -> elem_has_source (res (f q x)) = negb (ens x)) l ->
+  (* which results still satisfy a predicate on options somewhere *)
+  Lemma all_any : forall H ens l pt i,
+    Forall (fun x => forall q, wf_elem x = true -> elem_any H (res (f q x)) = negb (ens x)) l ->
     forallb wf_elem l = true ->
-    existsb elem_has_source (res (strip_all f pt l i)) = negb (forallb ens l).
+    existsb (elem_any H) (res (strip_all f pt l i)) = negb (forallb ens l).
   Proof.
     induction l as [|x tl IH]; intros pt i HF Hwf.
     - reflexivity.
     - fa_inv HF. cbn [forallb] in Hwf. apply andb_true_iff in Hwf. destruct Hwf as [Hx Htl].
       rewrite strip_all_cons. unfold res at 1. cbn [fst snd existsb forallb].
-      rewrite (H1 _ Hx), (IH _ _ H2 Htl), negb_andb. reflexivity.
+      rewrite (H2 _ Hx), (IH _ _ H3 Htl), negb_andb. reflexivity.
   Qed.
 
-  Lemma slots_has_source : forall ens ss sc p,
-    Forall (Forall (fun x => forall q, wf_elem x = true -> elem_has_source (res (f q x)) = negb (ens x))) ss ->
+  Lemma slots_any : forall H ens ss sc p,
+    Forall (Forall (fun x => forall q, wf_elem x = true -> elem_any H (res (f q x)) = negb (ens x))) ss ->
     forallb (forallb wf_elem) ss = true -> length ss = length sc ->
-    existsb (existsb elem_has_source) (res (strip_slots f p ss sc)) = negb (forallb (forallb ens) ss).
+    existsb (existsb (elem_any H)) (res (strip_slots f p ss sc)) = negb (forallb (forallb ens) ss).
   Proof.
     induction ss as [|s ss IH]; intros sc p HF Hwf Hlen.
     - reflexivity.
@@ -342,7 +342,7 @@ Section ListLemmas.
       + fa_inv HF. cbn [forallb] in Hwf. apply andb_true_iff in Hwf. destruct Hwf as [Hs Hss].
         cbn [length] in Hlen. injection Hlen as Hlen.
         rewrite strip_slots_cons. unfold res at 1. cbn [fst snd existsb forallb].
-        rewrite (all_has_source ens s _ _ H1 Hs), (IH _ _ H2 Hss Hlen), negb_andb. reflexivity.
+        rewrite (all_any H ens s _ _ H2 Hs), (IH _ _ H3 Hss Hlen), negb_andb. reflexivity.
   Qed.
 
   (* the paths *)
@@ -385,7 +385,8 @@ Section WalkProofs.
   Variable so : N -> option omsg -> path -> option omsg * bool * list path.
   Variable ku : bool.
   Variable Gd : option omsg -> bool.      (* guard under which so preserves what is not source *)
-  Variable NS : option omsg -> bool.      (* exactly when the result of so is free of source fields *)
+  Variable HS : option omsg -> bool.      (* a predicate on options, e.g. has a source field *)
+  Variable NS : option omsg -> bool.      (* exactly when the result of so does not satisfy HS *)
   Variable RS : path -> option omsg -> list path.   (* the paths so reports *)
 
   Hypothesis so_unch : forall g o p, chg (so g o p) = false -> res (so g o p) = o /\ rem (so g o p) = [].
@@ -393,7 +394,7 @@ Section WalkProofs.
   Hypothesis so_idem : forall g p g' p' o, chg (so g' (res (so g o p)) p') = false.
   Hypothesis so_pure : forall g o p x, In x (opts_objs (res (so g o p))) -> obj_addr x < g -> In x (opts_objs o).
   Hypothesis so_prune : forall g o p, Gd o = true -> prune_opts (res (so g o p)) = prune_opts o.
-  Hypothesis so_ns : forall g o p, opts_has_source (res (so g o p)) = negb (NS o).
+  Hypothesis so_ns : forall g o p, HS (res (so g o p)) = negb (NS o).
   Hypothesis so_rem : forall g o p, rem (so g o p) = RS p o.
 
   Let se := strip_elem so ku.
@@ -479,20 +480,20 @@ Section WalkProofs.
     cbn [prune_elem]. rewrite (so_prune _ _ _ HGd).
     rewrite (slots_prune (se g) elem_guard slots (schema k) p).
     - destruct Hu as [Hu|[Hk Hu]]; subst unk'; [reflexivity|].
-      subst ku. cbn [orb] in Hunk. destruct unk; [reflexivity | discriminate Hunk].
+      rewrite Hk in Hunk. cbn [orb] in Hunk. destruct unk; [reflexivity | discriminate Hunk].
     - eapply Forall_Forall_impl; [|exact IH]. intros y Hy q. apply Hy.
     - exact Hch.
   Qed.
 
   Lemma elem_ns : forall e g p, wf_elem e = true ->
-    elem_has_source (res (se g p e)) = negb (elem_all (fun o _ => NS o) e).
+    elem_any HS (res (se g p e)) = negb (elem_all (fun o _ => NS o) e).
   Proof.
     induction e as [k a o rest unk slots IH] using elem_ind'. intros g p Hwf.
     cbn [wf_elem] in Hwf. apply andb_true_iff in Hwf. destruct Hwf as [Hlen Hwf].
     apply Nat.eqb_eq in Hlen.
     destruct (elem_parts g p k a o rest unk slots) as [a' [unk' [E _]]]. rewrite E.
-    cbn [elem_has_source elem_all]. rewrite so_ns.
-    rewrite (slots_has_source (se g) (elem_all (fun o _ => NS o)) slots (schema k) p).
+    cbn [elem_any elem_all]. rewrite so_ns.
+    rewrite (slots_any (se g) HS (elem_all (fun o _ => NS o)) slots (schema k) p).
     - rewrite negb_andb. reflexivity.
     - eapply Forall_Forall_impl; [|exact IH]. intros y Hy q. apply Hy.
     - exact Hwf.
@@ -555,7 +556,7 @@ Section WalkProofs.
   Qed.
 
   Lemma file_ns : forall g f, wf_elem (f_root f) = true ->
-    elem_has_source (f_root (fst (sf g f))) = negb (elem_all (fun o _ => NS o) (f_root f)).
+    elem_any HS (f_root (fst (sf g f))) = negb (elem_all (fun o _ => NS o) (f_root f)).
   Proof. intros g f Hwf. rewrite file_root. apply elem_ns. exact Hwf. Qed.
 
   (* source code info: the locations under a removed option path go, nothing else *)
@@ -578,3 +579,464 @@ Section WalkProofs.
     f_equal. f_equal. apply filter_ext. intros l0. rewrite trie_is_prefix_set_lemma. reflexivity.
   Qed.
 End WalkProofs.
+
+(* ---------------------------------------------------------------- the pinned code: strip_opts *)
+Definition srcb (f : ofld) : bool := is_source (fld_ret f).
+Definition keepb (f : ofld) : bool := negb (is_source (fld_ret f)).
+
+Lemma existsb_filter_nil : forall {A} (P : A -> bool) l, existsb P l = false <-> filter P l = [].
+Proof.
+  intros A P l. induction l as [|x tl IH]; cbn [existsb filter].
+  - split; reflexivity.
+  - destruct (P x); cbn [orb].
+    + split; discriminate.
+    + exact IH.
+Qed.
+
+Lemma filter_keep_all : forall fs, existsb srcb fs = false -> filter keepb fs = fs.
+Proof.
+  induction fs as [|f tl IH]; cbn [existsb filter]; intros H.
+  - reflexivity.
+  - apply orb_false_iff in H. destruct H as [H1 H2]. unfold keepb at 1. unfold srcb in H1. rewrite H1.
+    cbn [negb]. rewrite (IH H2). reflexivity.
+Qed.
+
+Lemma no_src_in_keep : forall fs, existsb srcb (filter keepb fs) = false.
+Proof.
+  induction fs as [|f tl IH]; cbn [filter].
+  - reflexivity.
+  - unfold keepb at 1. destruct (is_source (fld_ret f)) eqn:E; cbn [negb existsb].
+    + exact IH.
+    + unfold srcb at 1. rewrite E. exact IH.
+Qed.
+
+Lemma strip_opts_some : forall g a fs unk p,
+  strip_opts g (Some (a, fs, unk)) p =
+  if negb (existsb srcb fs) then (Some (a, fs, unk), false, [])
+  else match filter keepb fs with
+       | [] => (None, true, [p])
+       | _ => (Some (fresh g a, filter keepb fs, []), true, map (fun f => p ++ [fld_num f]) (filter srcb fs))
+       end.
+Proof. reflexivity. Qed.
+
+Lemma so_unch_asis : forall g o p, chg (strip_opts g o p) = false ->
+  res (strip_opts g o p) = o /\ rem (strip_opts g o p) = [].
+Proof.
+  intros g [[[a fs] unk]|] p; [|split; reflexivity].
+  rewrite strip_opts_some. destruct (existsb srcb fs); cbn [negb].
+  - destruct (filter keepb fs); discriminate.
+  - split; reflexivity.
+Qed.
+
+Lemma so_flag_asis : forall g p g' p' o, chg (strip_opts g o p) = chg (strip_opts g' o p').
+Proof.
+  intros g p g' p' [[[a fs] unk]|]; [|reflexivity].
+  rewrite !strip_opts_some. destruct (existsb srcb fs); cbn [negb]; [|reflexivity].
+  destruct (filter keepb fs); reflexivity.
+Qed.
+
+Lemma so_idem_asis : forall g p g' p' o, chg (strip_opts g' (res (strip_opts g o p)) p') = false.
+Proof.
+  intros g p g' p' [[[a fs] unk]|]; [|reflexivity].
+  rewrite strip_opts_some. destruct (existsb srcb fs) eqn:E; cbn [negb].
+  - destruct (filter keepb fs) as [|f0 tl] eqn:EK; [reflexivity|].
+    unfold res at 1. cbn [fst]. rewrite strip_opts_some.
+    rewrite <- EK, no_src_in_keep. reflexivity.
+  - unfold res at 1. cbn [fst]. rewrite strip_opts_some, E. reflexivity.
+Qed.
+
+Lemma flat_map_filter_incl : forall {A B} (P : A -> bool) (h : A -> list B) l x,
+  In x (flat_map h (filter P l)) -> In x (flat_map h l).
+Proof.
+  intros A B P h l x. induction l as [|y tl IH]; cbn [filter flat_map]; intros H.
+  - exact H.
+  - apply in_app_iff. destruct (P y); cbn [flat_map] in H.
+    + apply in_app_iff in H. destruct H as [H|H]; [left; exact H | right; apply IH; exact H].
+    + right. apply IH. exact H.
+Qed.
+
+Lemma so_pure_asis : forall g o p x,
+  In x (opts_objs (res (strip_opts g o p))) -> obj_addr x < g -> In x (opts_objs o).
+Proof.
+  intros g [[[a fs] unk]|] p x; [|intros H _; exact H].
+  rewrite strip_opts_some. destruct (existsb srcb fs); cbn [negb].
+  - destruct (filter keepb fs) as [|f0 tl] eqn:EK; unfold res; cbn [fst opts_objs].
+    + intros [].
+    + rewrite <- EK. cbn [val_objs]. intros [H|H] Hlt.
+      * subst x. cbn [obj_addr] in Hlt. unfold fresh in Hlt. lia.
+      * right. eapply flat_map_filter_incl. exact H.
+  - intros H _. exact H.
+Qed.
+
+Lemma prune_fields_keep : forall pv fs, prune_fields pv (filter keepb fs) = prune_fields pv fs.
+Proof.
+  intros pv. induction fs as [|f tl IH]; cbn [filter prune_fields].
+  - reflexivity.
+  - unfold keepb at 1. unfold fld_ret. destruct (is_source (snd (fst f))) eqn:E; cbn [negb prune_fields].
+    + exact IH.
+    + rewrite E, IH. reflexivity.
+Qed.
+
+Lemma so_prune_asis : forall g o p, opts_no_unknown o = true ->
+  prune_opts (res (strip_opts g o p)) = prune_opts o.
+Proof.
+  intros g [[[a fs] unk]|] p Hu; [|reflexivity].
+  cbn [opts_no_unknown] in Hu. destruct unk; [|discriminate Hu].
+  rewrite strip_opts_some. destruct (existsb srcb fs); cbn [negb]; [|reflexivity].
+  destruct (filter keepb fs) as [|f0 tl] eqn:EK; unfold res; cbn [fst prune_opts].
+  - rewrite <- (prune_fields_keep prune_val fs), EK. reflexivity.
+  - rewrite <- EK, prune_fields_keep. destruct (prune_fields prune_val fs); reflexivity.
+Qed.
+
+Lemma has_source_keep : forall fs,
+  has_source_fields (filter keepb fs) =
+  negb (forallb (fun f => is_source (fld_ret f) || negb (has_source_val (fld_val f))) fs).
+Proof.
+  induction fs as [|f tl IH]; cbn [filter forallb].
+  - reflexivity.
+  - unfold keepb at 1. destruct (is_source (fld_ret f)) eqn:E; cbn [negb orb andb].
+    + exact IH.
+    + unfold has_source_fields in *. cbn [existsb]. rewrite E, IH. cbn [orb].
+      rewrite negb_andb, negb_involutive. reflexivity.
+Qed.
+
+Lemma so_ns_asis : forall g o p, opts_has_source (res (strip_opts g o p)) = negb (opts_nested_free o).
+Proof.
+  intros g [[[a fs] unk]|] p; [|reflexivity].
+  rewrite strip_opts_some. cbn [opts_nested_free]. rewrite <- has_source_keep.
+  destruct (existsb srcb fs) eqn:E; cbn [negb].
+  - destruct (filter keepb fs) as [|f0 tl] eqn:EK; unfold res; cbn [fst opts_has_source]; reflexivity.
+  - unfold res; cbn [fst opts_has_source]. rewrite (filter_keep_all _ E). reflexivity.
+Qed.
+
+Lemma so_rem_asis : forall g o p, rem (strip_opts g o p) = removed_top p o.
+Proof.
+  intros g [[[a fs] unk]|] p; [|reflexivity].
+  rewrite strip_opts_some. cbn [removed_top]. fold srcb. fold keepb.
+  destruct (existsb srcb fs) eqn:E; cbn [negb].
+  - destruct (filter srcb fs) as [|s0 stl] eqn:ES.
+    + apply existsb_filter_nil in ES. rewrite ES in E. discriminate E.
+    + destruct (filter keepb fs); reflexivity.
+  - apply existsb_filter_nil in E. rewrite E. reflexivity.
+Qed.
+
+Lemma so_top_asis : forall g o p, opts_top_source (res (strip_opts g o p)) = negb true.
+Proof.
+  intros g [[[a fs] unk]|] p; [|reflexivity].
+  rewrite strip_opts_some. fold srcb. destruct (existsb srcb fs) eqn:E; cbn [negb].
+  - destruct (filter keepb fs) as [|f0 tl] eqn:EK; unfold res; cbn [fst opts_top_source]; [reflexivity|].
+    rewrite <- EK. fold srcb. apply no_src_in_keep.
+  - unfold res; cbn [fst opts_top_source]. fold srcb. exact E.
+Qed.
+
+Lemma elem_all_true : forall e, elem_all (fun _ _ => true) e = true.
+Proof.
+  induction e as [k a o rest unk slots IH] using elem_ind'. cbn [elem_all andb].
+  apply forallb_forall. intros s Hs. apply forallb_forall. intros x Hx.
+  rewrite Forall_forall in IH. specialize (IH s Hs). rewrite Forall_forall in IH. apply IH. exact Hx.
+Qed.
+
+(* ---- main statements about the pinned code ---- *)
+Definition witness_nested : file :=
+  File (Elem KFile 0 None 1 []
+          [[Elem KMsg 1 (Some (2, [(50001, RUnset, VMsg 3 [(2, RSource, VScalar 7)] [])], [])) 2 [] [[];[];[];[];[];[]]];
+           []; []; []]) None.
+
+Lemma removes_refuted_lemma :
+  exists g f, wf_elem (f_root f) = true /\ elem_has_source (f_root (fst (strip g f))) = true.
+Proof. exists 4, witness_nested. split; vm_compute; reflexivity. Qed.
+
+Lemma removes_partial_lemma : forall g f, wf_elem (f_root f) = true ->
+  (no_source (fst (strip g f)) <-> nested_source_free (f_root f) = true).
+Proof.
+  intros g f Hwf. unfold no_source, elem_has_source, strip.
+  rewrite (file_ns strip_opts false opts_has_source opts_nested_free so_unch_asis so_ns_asis g f Hwf).
+  unfold nested_source_free. destruct (elem_all (fun o _ => opts_nested_free o) (f_root f)); cbn [negb]; split; congruence.
+Qed.
+
+Lemma removes_top_lemma : forall g f, wf_elem (f_root f) = true ->
+  elem_top_source (f_root (fst (strip g f))) = false.
+Proof.
+  intros g f Hwf. unfold elem_top_source, strip.
+  rewrite (file_ns strip_opts false opts_top_source (fun _ => true) so_unch_asis so_top_asis g f Hwf).
+  rewrite elem_all_true. reflexivity.
+Qed.
+
+Definition witness_unknown : file :=
+  File (Elem KFile 0 None 1 []
+          [[Elem KMsg 1 (Some (2, [(50001, RUnset, VScalar 5); (50002, RSource, VScalar 6)], [9])) 2 [] [[];[];[];[];[];[]]];
+           []; []; []]) None.
+
+Lemma preserves_refuted_lemma :
+  exists g f, wf_elem (f_root f) = true /\ elem_has_source (f_root (fst (strip g f))) = false /\
+              prune_elem (f_root (fst (strip g f))) <> prune_elem (f_root f).
+Proof. exists 3, witness_unknown. split; [|split]; vm_compute; [reflexivity|reflexivity|discriminate]. Qed.
+
+Lemma preserves_partial_lemma : forall g f, no_unknown (f_root f) = true ->
+  prune_elem (f_root (fst (strip g f))) = prune_elem (f_root f).
+Proof.
+  intros g f Hn. unfold strip.
+  apply (file_prune strip_opts false opts_no_unknown so_unch_asis so_prune_asis g f). exact Hn.
+Qed.
+
+Lemma idempotent_lemma : forall g g' f, strip g' (fst (strip g f)) = (fst (strip g f), false).
+Proof. intros. unfold strip. apply (file_idem strip_opts false so_unch_asis so_flag_asis so_idem_asis). Qed.
+
+Lemma pure_lemma : forall g f x, In x (file_objs (fst (strip g f))) -> obj_addr x < g -> In x (file_objs f).
+Proof. intros g f x. unfold strip. apply (file_pure strip_opts false so_pure_asis). Qed.
+
+Lemma locations_lemma : forall g f,
+  let qs := removed_elem removed_top [] (f_root f) in
+  match f_sci f with
+  | Some (a, l :: locs) =>
+    if snd (strip g f)
+    then f_sci (fst (strip g f)) = Some (fresh g a, filter (fun l => negb (under_any qs (fst l))) (l :: locs))
+    else fst (strip g f) = f
+  | other => f_sci (fst (strip g f)) = other
+  end.
+Proof. intros g f. unfold strip. apply (file_locations strip_opts false removed_top so_rem_asis). Qed.
+
+(* ---------------------------------------------------------------- the proposed repair: strip_opts_fixed *)
+Section CopyEq.
+  Variable cp : path -> oval -> oval * list path.
+
+  Lemma copy_fields_cons : forall p f tl,
+    copy_fields cp p (f :: tl) =
+    if is_source (snd (fst f))
+    then (fst (copy_fields cp p tl), (p ++ [fst (fst f)]) :: snd (copy_fields cp p tl))
+    else ((fst (fst f), snd (fst f), fst (cp (p ++ [fst (fst f)]) (snd f))) :: fst (copy_fields cp p tl),
+          snd (cp (p ++ [fst (fst f)]) (snd f)) ++ snd (copy_fields cp p tl)).
+  Proof.
+    intros. cbn [copy_fields]. destruct (copy_fields cp p tl) as [tl' rm].
+    destruct (is_source (snd (fst f))); [reflexivity|].
+    destruct (cp (p ++ [fst (fst f)]) (snd f)) as [w' rw]. reflexivity.
+  Qed.
+
+  Lemma copy_items_cons : forall p w tl i,
+    copy_items cp p (w :: tl) i =
+    (fst (cp (p ++ [i]) w) :: fst (copy_items cp p tl (i + 1)),
+     snd (cp (p ++ [i]) w) ++ snd (copy_items cp p tl (i + 1))).
+  Proof.
+    intros. cbn [copy_items]. destruct (cp (p ++ [i]) w) as [w' rw].
+    destruct (copy_items cp p tl (i + 1)) as [tl' rm]. reflexivity.
+  Qed.
+End CopyEq.
+
+Lemma copy_val_msg : forall g p a fs unk,
+  copy_val g p (VMsg a fs unk) =
+  (VMsg (fresh g a) (fst (copy_fields (copy_val g) p fs)) unk, snd (copy_fields (copy_val g) p fs)).
+Proof. intros. cbn [copy_val]. destruct (copy_fields (copy_val g) p fs). reflexivity. Qed.
+
+Lemma copy_val_list : forall g p items,
+  copy_val g p (VList items) =
+  (VList (fst (copy_items (copy_val g) p items 0)), snd (copy_items (copy_val g) p items 0)).
+Proof. intros. cbn [copy_val]. destruct (copy_items (copy_val g) p items 0). reflexivity. Qed.
+
+(* the copy has no source-retention field, prunes to the same value, consists of fresh objects
+   only, and reports the paths of the specification *)
+Definition copy_ok (g : N) (v : oval) : Prop :=
+  forall p,
+    has_source_val (fst (copy_val g p v)) = false /\
+    prune_val (fst (copy_val g p v)) = prune_val v /\
+    (forall x, In x (val_objs (fst (copy_val g p v))) -> g <= obj_addr x) /\
+    snd (copy_val g p v) = removed_val p v.
+
+Lemma has_source_fields_cons : forall f tl,
+  has_source_fields (f :: tl) = (is_source (fld_ret f) || has_source_val (fld_val f)) || has_source_fields tl.
+Proof. reflexivity. Qed.
+
+Lemma copy_fields_ok : forall g fs, Forall (fun f => copy_ok g (snd f)) fs -> forall p,
+  has_source_fields (fst (copy_fields (copy_val g) p fs)) = false /\
+  prune_fields prune_val (fst (copy_fields (copy_val g) p fs)) = prune_fields prune_val fs /\
+  (forall x, In x (flat_map (fun f => val_objs (snd f)) (fst (copy_fields (copy_val g) p fs))) -> g <= obj_addr x) /\
+  snd (copy_fields (copy_val g) p fs) = removed_fields removed_val p fs /\
+  length (fst (copy_fields (copy_val g) p fs)) = length (prune_fields prune_val fs).
+Proof.
+  intros g fs HF p. induction HF as [|f tl Hf _ IH].
+  - repeat split; try reflexivity. intros x [].
+  - destruct IH as [I1 [I2 [I3 [I4 I5]]]]. rewrite copy_fields_cons.
+    cbn [prune_fields removed_fields]. destruct (is_source (snd (fst f))) eqn:E; cbn [fst snd].
+    + repeat split; try assumption. rewrite I4. reflexivity.
+    + destruct (Hf (p ++ [fst (fst f)])) as [C1 [C2 [C3 C4]]].
+      repeat split.
+      * rewrite has_source_fields_cons. unfold fld_ret, fld_val. cbn [fst snd].
+        rewrite E, C1, I1. reflexivity.
+      * cbn [prune_fields fst snd]. rewrite E, C2, I2. reflexivity.
+      * intros x Hx. cbn [flat_map snd] in Hx. apply in_app_iff in Hx. destruct Hx as [Hx|Hx].
+        -- apply C3. exact Hx.
+        -- apply I3. exact Hx.
+      * rewrite C4, I4. reflexivity.
+      * cbn [length]. rewrite I5. reflexivity.
+Qed.
+
+Lemma copy_items_ok : forall g items, Forall (copy_ok g) items -> forall p i,
+  existsb has_source_val (fst (copy_items (copy_val g) p items i)) = false /\
+  map prune_val (fst (copy_items (copy_val g) p items i)) = map prune_val items /\
+  (forall x, In x (flat_map val_objs (fst (copy_items (copy_val g) p items i))) -> g <= obj_addr x) /\
+  snd (copy_items (copy_val g) p items i) = removed_items removed_val p items i.
+Proof.
+  intros g items HF. induction HF as [|w tl Hw _ IH]; intros p i.
+  - repeat split; try reflexivity. intros x [].
+  - destruct (IH p (i + 1)) as [I1 [I2 [I3 I4]]]. rewrite copy_items_cons. cbn [fst snd].
+    destruct (Hw (p ++ [i])) as [C1 [C2 [C3 C4]]].
+    repeat split.
+    + cbn [existsb]. rewrite C1, I1. reflexivity.
+    + cbn [map]. rewrite C2, I2. reflexivity.
+    + intros x Hx. cbn [flat_map] in Hx. apply in_app_iff in Hx. destruct Hx as [Hx|Hx]; [apply C3|apply I3]; exact Hx.
+    + cbn [removed_items]. rewrite C4, I4. reflexivity.
+Qed.
+
+Lemma copy_val_ok : forall g v, copy_ok g v.
+Proof.
+  intros g. induction v as [s|a fs unk IH|items IH] using oval_ind'; intros p.
+  - repeat split; try reflexivity. intros x [].
+  - destruct (copy_fields_ok g fs IH p) as [I1 [I2 [I3 [I4 _]]]].
+    rewrite copy_val_msg. cbn [fst snd]. repeat split.
+    + cbn [has_source_val]. exact I1.
+    + cbn [prune_val]. rewrite I2. reflexivity.
+    + intros x Hx. cbn [val_objs] in Hx. destruct Hx as [Hx|Hx].
+      * subst x. cbn [obj_addr]. unfold fresh. lia.
+      * apply I3. exact Hx.
+    + exact I4.
+  - destruct (copy_items_ok g items IH p 0) as [I1 [I2 [I3 I4]]].
+    rewrite copy_val_list. cbn [fst snd]. repeat split.
+    + cbn [has_source_val]. exact I1.
+    + cbn [prune_val]. rewrite I2. reflexivity.
+    + exact I3.
+    + exact I4.
+Qed.
+
+Lemma copy_fields_all : forall g p fs,
+  has_source_fields (fst (copy_fields (copy_val g) p fs)) = false /\
+  prune_fields prune_val (fst (copy_fields (copy_val g) p fs)) = prune_fields prune_val fs /\
+  (forall x, In x (flat_map (fun f => val_objs (snd f)) (fst (copy_fields (copy_val g) p fs))) -> g <= obj_addr x) /\
+  snd (copy_fields (copy_val g) p fs) = removed_fields removed_val p fs /\
+  length (fst (copy_fields (copy_val g) p fs)) = length (prune_fields prune_val fs).
+Proof.
+  intros g p fs. apply copy_fields_ok. apply Forall_forall. intros f _. apply copy_val_ok.
+Qed.
+
+Lemma strip_opts_fixed_some : forall g a fs unk p,
+  strip_opts_fixed g (Some (a, fs, unk)) p =
+  if negb (has_source_fields fs) then (Some (a, fs, unk), false, [])
+  else match fst (copy_fields (copy_val g) p fs), unk with
+       | [], [] => (None, true, p :: snd (copy_fields (copy_val g) p fs))
+       | fs', _ => (Some (fresh g a, fs', unk), true, snd (copy_fields (copy_val g) p fs))
+       end.
+Proof.
+  intros. unfold strip_opts_fixed. destruct (negb (has_source_fields fs)); [reflexivity|].
+  rewrite copy_val_msg. destruct (fst (copy_fields (copy_val g) p fs)); destruct unk; reflexivity.
+Qed.
+
+Lemma so_unch_fixed : forall g o p, chg (strip_opts_fixed g o p) = false ->
+  res (strip_opts_fixed g o p) = o /\ rem (strip_opts_fixed g o p) = [].
+Proof.
+  intros g [[[a fs] unk]|] p; [|split; reflexivity].
+  rewrite strip_opts_fixed_some. destruct (has_source_fields fs); cbn [negb].
+  - destruct (fst (copy_fields (copy_val g) p fs)); destruct unk; discriminate.
+  - split; reflexivity.
+Qed.
+
+Lemma chg_fixed : forall g o p, chg (strip_opts_fixed g o p) = opts_has_source o.
+Proof.
+  intros g [[[a fs] unk]|] p; [|reflexivity].
+  rewrite strip_opts_fixed_some. cbn [opts_has_source]. destruct (has_source_fields fs); cbn [negb].
+  - destruct (fst (copy_fields (copy_val g) p fs)); destruct unk; reflexivity.
+  - reflexivity.
+Qed.
+
+Lemma so_flag_fixed : forall g p g' p' o, chg (strip_opts_fixed g o p) = chg (strip_opts_fixed g' o p').
+Proof. intros. rewrite !chg_fixed. reflexivity. Qed.
+
+Lemma so_ns_fixed : forall g o p, opts_has_source (res (strip_opts_fixed g o p)) = negb true.
+Proof.
+  intros g [[[a fs] unk]|] p; [|reflexivity].
+  rewrite strip_opts_fixed_some. destruct (has_source_fields fs) eqn:E; cbn [negb].
+  - destruct (copy_fields_all g p fs) as [I1 _].
+    destruct (fst (copy_fields (copy_val g) p fs)) as [|f0 tl] eqn:EF; destruct unk; unfold res; cbn [fst opts_has_source];
+      try reflexivity; exact I1.
+  - unfold res; cbn [fst opts_has_source]. exact E.
+Qed.
+
+Lemma so_idem_fixed : forall g p g' p' o, chg (strip_opts_fixed g' (res (strip_opts_fixed g o p)) p') = false.
+Proof. intros. rewrite chg_fixed. apply so_ns_fixed. Qed.
+
+Lemma so_pure_fixed : forall g o p x,
+  In x (opts_objs (res (strip_opts_fixed g o p))) -> obj_addr x < g -> In x (opts_objs o).
+Proof.
+  intros g [[[a fs] unk]|] p x; [|intros H _; exact H].
+  rewrite strip_opts_fixed_some. destruct (has_source_fields fs); cbn [negb].
+  - destruct (copy_fields_all g p fs) as [_ [_ [I3 _]]].
+    assert (HN : forall fs' unk', fs' = fst (copy_fields (copy_val g) p fs) ->
+                 In x (opts_objs (Some (fresh g a, fs', unk'))) -> obj_addr x < g -> False).
+    { intros fs' unk' Efs HI Hlt. cbn [opts_objs val_objs] in HI. destruct HI as [HI|HI].
+      - subst x. cbn [obj_addr] in Hlt. unfold fresh in Hlt. lia.
+      - subst fs'. specialize (I3 x HI). lia. }
+    destruct (fst (copy_fields (copy_val g) p fs)) as [|f0 tl] eqn:EF; destruct unk as [|u0 utl]; unfold res; cbn [fst].
+    + intros [].
+    + intros HI Hlt. exfalso. exact (HN [] (u0 :: utl) eq_refl HI Hlt).
+    + intros HI Hlt. exfalso. exact (HN (f0 :: tl) [] eq_refl HI Hlt).
+    + intros HI Hlt. exfalso. exact (HN (f0 :: tl) (u0 :: utl) eq_refl HI Hlt).
+  - intros H _. exact H.
+Qed.
+
+Lemma length_nil : forall {A} (l : list A), length l = O -> l = [].
+Proof. intros A [|x l]; [reflexivity|discriminate]. Qed.
+
+Lemma so_prune_fixed : forall g o p, (fun _ : option omsg => true) o = true ->
+  prune_opts (res (strip_opts_fixed g o p)) = prune_opts o.
+Proof.
+  intros g [[[a fs] unk]|] p _; [|reflexivity].
+  rewrite strip_opts_fixed_some. destruct (has_source_fields fs); cbn [negb]; [|reflexivity].
+  destruct (copy_fields_all g p fs) as [_ [I2 [_ [_ I5]]]].
+  destruct (fst (copy_fields (copy_val g) p fs)) as [|f0 tl] eqn:EF; destruct unk; unfold res; cbn [fst prune_opts].
+  - cbn [length] in I5. symmetry in I5. apply length_nil in I5. rewrite I5. reflexivity.
+  - cbn [prune_fields]. cbn [prune_fields] in I2. rewrite <- I2. reflexivity.
+  - rewrite I2. reflexivity.
+  - rewrite I2. reflexivity.
+Qed.
+
+Lemma so_rem_fixed : forall g o p, rem (strip_opts_fixed g o p) = removed_deep p o.
+Proof.
+  intros g [[[a fs] unk]|] p; [|reflexivity].
+  rewrite strip_opts_fixed_some. cbn [removed_deep]. destruct (has_source_fields fs); cbn [negb]; [|reflexivity].
+  destruct (copy_fields_all g p fs) as [_ [_ [_ [I4 I5]]]].
+  destruct (fst (copy_fields (copy_val g) p fs)) as [|f0 tl] eqn:EF; destruct unk; unfold rem; cbn [snd].
+  - cbn [length] in I5. symmetry in I5. apply length_nil in I5. rewrite I5, I4. reflexivity.
+  - rewrite I4. destruct (prune_fields prune_val fs); reflexivity.
+  - rewrite I4. destruct (prune_fields prune_val fs) eqn:EP; [|reflexivity].
+    discriminate I5.
+  - rewrite I4. destruct (prune_fields prune_val fs); reflexivity.
+Qed.
+
+(* ---- main statements about the repaired code ---- *)
+Lemma fixed_removes_lemma : forall g f, wf_elem (f_root f) = true -> no_source (fst (strip_fixed g f)).
+Proof.
+  intros g f Hwf. unfold no_source, elem_has_source, strip_fixed.
+  rewrite (file_ns strip_opts_fixed true opts_has_source (fun _ => true) so_unch_fixed so_ns_fixed g f Hwf).
+  rewrite elem_all_true. reflexivity.
+Qed.
+
+Lemma fixed_preserves_lemma : forall g f, prune_elem (f_root (fst (strip_fixed g f))) = prune_elem (f_root f).
+Proof.
+  intros g f. unfold strip_fixed.
+  apply (file_prune strip_opts_fixed true (fun _ => true) so_unch_fixed so_prune_fixed g f).
+  apply elem_all_true.
+Qed.
+
+Lemma fixed_idempotent_lemma : forall g g' f, strip_fixed g' (fst (strip_fixed g f)) = (fst (strip_fixed g f), false).
+Proof. intros. unfold strip_fixed. apply (file_idem strip_opts_fixed true so_unch_fixed so_flag_fixed so_idem_fixed). Qed.
+
+Lemma fixed_pure_lemma : forall g f x, In x (file_objs (fst (strip_fixed g f))) -> obj_addr x < g -> In x (file_objs f).
+Proof. intros g f x. unfold strip_fixed. apply (file_pure strip_opts_fixed true so_pure_fixed). Qed.
+
+Lemma fixed_locations_lemma : forall g f,
+  let qs := removed_elem removed_deep [] (f_root f) in
+  match f_sci f with
+  | Some (a, l :: locs) =>
+    if snd (strip_fixed g f)
+    then f_sci (fst (strip_fixed g f)) = Some (fresh g a, filter (fun l => negb (under_any qs (fst l))) (l :: locs))
+    else fst (strip_fixed g f) = f
+  | other => f_sci (fst (strip_fixed g f)) = other
+  end.
+Proof. intros g f. unfold strip_fixed. apply (file_locations strip_opts_fixed true removed_deep so_rem_fixed). Qed.
